@@ -350,6 +350,8 @@ theorem makeProjection_FInv (pa : Parser) (s : Proj) (sp : Spec) (pa' : Parser) 
     (h : FInv s) (hm : makeProjection pa s sp = (pa', .ok s')) : FInv s' ∧ s'.nodes = s.nodes := by
   unfold makeProjection at hm
   split at hm
+  · simp at hm
+  split at hm
   · split at hm
     · simp at hm
     · simp only [Proj.addGroup, Prod.mk.injEq, Except.ok.injEq] at hm
